@@ -15,6 +15,8 @@ type RunResult struct {
 	Log        []string
 	HarnessErr string
 	Extra      any // special checks: replay payload
+	Final      string
+	AckLog     []string
 }
 
 // runGenerate performs one seeded run: generate-and-execute, then drain.
@@ -30,7 +32,13 @@ func runGenerate(prof *Profile, seed uint64, verbose bool) (res *RunResult) {
 			}
 		}
 		if s != nil {
-			res.Viol, res.Stats, res.HashLog, res.Log = s.Viol, s.Stats, s.HashLog, s.Log
+			res.Viol, res.Stats, res.HashLog, res.Log, res.AckLog = s.Viol, s.Stats, s.HashLog, s.Log, s.AckLog
+			if res.HarnessErr == "" {
+				func() {
+					defer func() { recover() }()
+					res.Final = s.finalDigest()
+				}()
+			}
 		}
 	}()
 	r := NewRng(seed)
@@ -63,7 +71,13 @@ func runReplay(prof *Profile, trace []Op, verbose bool) (res *RunResult) {
 			}
 		}
 		if s != nil {
-			res.Viol, res.Stats, res.HashLog, res.Log = s.Viol, s.Stats, s.HashLog, s.Log
+			res.Viol, res.Stats, res.HashLog, res.Log, res.AckLog = s.Viol, s.Stats, s.HashLog, s.Log, s.AckLog
+			if res.HarnessErr == "" {
+				func() {
+					defer func() { recover() }()
+					res.Final = s.finalDigest()
+				}()
+			}
 		}
 	}()
 	s = NewSim(prof)
